@@ -114,3 +114,36 @@ def cpu_budget(seconds: float, mem_bytes: int = 6 << 30):
             resource.setrlimit(resource.RLIMIT_AS, (soft, hard))
         except (ValueError, OSError):
             pass
+
+
+# ------------------------------------------------------------------ the clock seam
+@contextlib.contextmanager
+def patched_clock(now, request_id=None, monotonic=False):
+    """Install `now()` as the library's clock for the enclosed code, whichever way the library reads it:
+    time.time (module attribute), puresnmp.util.time (imported by name) and - so that the seam survives a refactoring of the
+    id source - get_request_id in every puresnmp module that holds it, which then returns int(request_id()) (default: int(now())).
+    monotonic=True also replaces time.monotonic (only for runs that use no event-loop timers).
+    now=None leaves the clock alone and only fixes the request ids."""
+    import sys, time as _t
+    rid = request_id or now
+    saved = []
+
+    def put(obj, name, val):
+        saved.append((obj, name, getattr(obj, name)))
+        setattr(obj, name, val)
+    if now is not None:
+        put(_t, "time", now)
+        if monotonic:
+            put(_t, "monotonic", now)
+    for name, mod in list(sys.modules.items()):
+        if mod is None or not (name.startswith("puresnmp") or name.startswith("puresnmp_plugins")):
+            continue
+        if hasattr(mod, "get_request_id"):
+            put(mod, "get_request_id", lambda: int(rid()))
+        if now is not None and name == "puresnmp.util" and hasattr(mod, "time") and callable(getattr(mod, "time")):
+            put(mod, "time", now)
+    try:
+        yield
+    finally:
+        for obj, name, val in reversed(saved):
+            setattr(obj, name, val)
